@@ -18,6 +18,7 @@ import (
 	"regexp"
 	"strconv"
 	"strings"
+	"sync/atomic"
 	"time"
 
 	simplefixgo "github.com/b2broker/simplefix-go"
@@ -420,7 +421,7 @@ func (r *runner) apply(op *Op) (o obs, line string) {
 }
 
 // Run executes the scenario; returns the observation line and the per-op observations.
-func runScenario(sc *Scenario) (line string, all []obs, err error) {
+func runScenario(sc *Scenario, prog *int64) (line string, all []obs, err error) {
 	r, err := newRunner(sc)
 	if err != nil {
 		return "", nil, err
@@ -436,6 +437,7 @@ func runScenario(sc *Scenario) (line string, all []obs, err error) {
 	lines := []string{o.line(r.sendErr, false)}
 	all = append(all, o)
 	for i := range sc.Ops {
+		atomic.StoreInt64(prog, int64(i))
 		o, l := r.apply(&sc.Ops[i])
 		lines = append(lines, l)
 		all = append(all, o)
@@ -532,7 +534,7 @@ func main() {
 		runAndEmit(id, sc, []string{"corpus"})
 		id++
 	}
-	for i := 0; i < *n; i++ {
+	for i := 0; i < *n && hangs < 3; i++ { // three blocked sessions are evidence enough: do not wait for more
 		r := root.Fork()
 		sc, tags := genScenario(r)
 		runAndEmit(id, sc, tags)
@@ -540,20 +542,47 @@ func main() {
 	}
 }
 
+const hangLimit = 8 * time.Second
+
+var hangs int // scenarios abandoned because the session blocked
+
 func runAndEmit(id int, sc *Scenario, tags []string) {
 	rec := &Rec{ID: id, Mode: "session", Case: sc.Line(), Oracle: map[string]string{}, Tags: tags, Size: len(sc.Ops)}
 	var line string
 	var all []obs
 	var err error
-	p := func() (p string) {
+	var p string
+	prog := int64(-1)
+	done := make(chan struct{})
+	go func() {
+		defer close(done)
 		defer func() {
 			if r := recover(); r != nil {
 				p = fmt.Sprint(r)
 			}
 		}()
-		line, all, err = runScenario(sc)
-		return ""
+		line, all, err = runScenario(sc, &prog)
 	}()
+	// a scenario takes milliseconds; one that does not come back has blocked the session (the
+	// goroutine is abandoned, the next scenario gets a fresh session)
+	select {
+	case <-done:
+	case <-time.After(hangLimit):
+		i := int(atomic.LoadInt64(&prog))
+		what := "Session.Run"
+		if i >= 0 && i < len(sc.Ops) {
+			what = fmt.Sprintf("operation %d (%s %s)", i, sc.Ops[i].Kind, sc.Ops[i].Label)
+		}
+		hangs++
+		rec.Impl = "HANG " + what
+		for _, k := range []string{"C05", "C06", "C07", "C10", "C14", "C15", "C16", "C19"} {
+			rec.Oracle[k] = "fail: " + what + " did not return within " + hangLimit.String() + ": the session is blocked and answers nothing any more"
+		}
+		scj, _ := json.Marshal(sc)
+		rec.Tags = append(rec.Tags, "scenario="+string(scj))
+		emit(rec)
+		return
+	}
 	switch {
 	case p != "":
 		rec.Impl = "PANIC " + p
